@@ -59,6 +59,7 @@
 -/
 import Proofs.CQ
 import Proofs.CQSplit
+import Proofs.CQCounts
 import Mathlib.NumberTheory.Zsqrtd.GaussianInt
 
 namespace DV.C12
@@ -315,6 +316,32 @@ def C12_counts_glue : Prop :=
       c.measure true = .ok (m.toList.map D8.re) ∧
       ∀ counts, c.getCounts = .ok counts →
         ∀ k x, (k, x) ∈ counts ↔ (m.toList[k]? = some x ∧ x ≠ 0)
+
+omit [CommRing R] [StarRing R] in
+/-- **counts glue, the part that is proved** (`C12_counts_glue_partial`): whenever the
+    prepared-and-discarded circuit evaluates to a CQ map `m`, `measure(mixed=True)` is the list of
+    the real parts of `m`'s entries, `get_counts()` answers, and an outcome `k` is listed with
+    value `x` iff entry `k` of `m` is not zero and `x` is its real part.  Missing for the full
+    statement above: that the evaluation succeeds for every well-typed circuit of typed boxes
+    (typing of the `inits`/`discards` layers), and that the entries are real (so that the real part
+    is the entry). -/
+theorem C12_counts_glue_partial (c : Circuit D8) (m : CQMap D8)
+    (h : c.initAndDiscard.evalMixed = .ok m) :
+    c.measure true = .ok (m.toList.map D8.re) ∧
+    ∃ counts, c.getCounts = .ok counts ∧
+      ∀ k x, (k, x) ∈ counts ↔ ∃ y, m.toList[k]? = some y ∧ y ≠ 0 ∧ x = y.re :=
+  ⟨measure_mixed_of_eval c m h, _, getCounts_of_eval c m h,
+    fun k x => mem_getCounts_iff c m _ h (getCounts_of_eval c m h) k x⟩
+
+omit [CommRing R] [StarRing R] in
+/-- The listed outcomes are distinct and come in increasing order of their flat index (a Python
+    dict built from them has one key per listed outcome). -/
+theorem counts_keys_increasing (c : Circuit D8) (m : CQMap D8) (counts : List (Nat × D8))
+    (h : c.initAndDiscard.evalMixed = .ok m) (hc : c.getCounts = .ok counts) :
+    (counts.map Prod.fst).Pairwise (· < ·) := by
+  rw [getCounts_of_eval c m h] at hc
+  cases hc
+  exact (getCounts_keys_increasing m.toList 0).1
 
 /-! ## non-vacuity: concrete, non-trivial instances over the Gaussian integers -/
 
